@@ -611,6 +611,14 @@ class ConstructedPayloadDecoderBase(AbstractConstructedPayloadDecoder):
                 tagSet=tag.TagSet(protoComponent.tagSet.baseTag, *tagSet.superTags)
             )
 
+        if asn1Object is None:
+            protoComponent = self.protoSequenceComponent
+
+            asn1Object = protoComponent.clone(
+                tagSet=tag.TagSet(protoComponent.tagSet.baseTag, *tagSet.superTags)
+            )
+            asn1Object.clear()
+
         if LOG:
             LOG('guessed %r container type (pass `asn1Spec` to guide the '
                 'decoder)' % asn1Object)
